@@ -1906,7 +1906,7 @@ class Engine:
             mark = len(eng.obls)
             for k, g in enumerate(gens):
                 src = eng.ev(g.iter, s2)
-                if isinstance(src, (SetV, BagV, TupV)):
+                if isinstance(src, (SetV, BagV)):
                     raise Unsupported("nested comprehension over a non-sequence")
                 seq = eng.as_seq(src, s2)
                 x = xs[k]
